@@ -5,6 +5,7 @@
 -/
 import ModVerif.Model.Modfile.Rule
 import ModVerif.Proofs.ModfileFmtQuoteUnquote
+import ModVerif.Proofs.ModfileFmtConserve
 namespace ModVerif.Proofs.ModfileFmtDir
 open ModVerif ModVerif.Modfile ModVerif.Proofs.ModfileFmtLex ModVerif.Proofs.ModfileFmtLine
 
@@ -21,9 +22,8 @@ structure Values where
   replace : List (ModVersion × ModVersion)
   retract : List VersionInterval
   tool : List Bytes
-  deriving DecidableEq
 
-def values (f : File) : Values :=
+def values (f : Modfile.File) : Values :=
   { module := f.module.map (·.mod.path)
     go := f.go.map (·.version)
     toolchain := f.toolchain.map (·.name)
@@ -47,19 +47,272 @@ def FixOK (fix : Option Fixer) : Prop :=
 /-- no argument is a lone parenthesis and every argument is a line token -/
 def ArgsTok (args : List Bytes) : Prop := ∀ t ∈ args, TokText t ∧ t ≠ [40] ∧ t ≠ [41]
 
-theorem values_module_isSome {f g : File} (h : values f = values g) : f.module.isSome = g.module.isSome := by
+theorem values_module_isSome {f g : Modfile.File} (h : values f = values g) : f.module.isSome = g.module.isSome := by
   have := congrArg Values.module h
   simp only [values] at this
   cases hf : f.module <;> cases hg : g.module <;> simp_all
 
-theorem values_go_isSome {f g : File} (h : values f = values g) : f.go.isSome = g.go.isSome := by
+theorem values_go_isSome {f g : Modfile.File} (h : values f = values g) : f.go.isSome = g.go.isSome := by
   have := congrArg Values.go h
   simp only [values] at this
   cases hf : f.go <;> cases hg : g.go <;> simp_all
 
-theorem values_toolchain_isSome {f g : File} (h : values f = values g) : f.toolchain.isSome = g.toolchain.isSome := by
+theorem values_toolchain_isSome {f g : Modfile.File} (h : values f = values g) : f.toolchain.isSome = g.toolchain.isSome := by
   have := congrArg Values.toolchain h
   simp only [values] at this
   cases hf : f.toolchain <;> cases hg : g.toolchain <;> simp_all
+
+/-! ### verbs are pairwise different -/
+
+theorem verb_ne :
+    (B "toolchain" == B "go") = false ∧ (B "module" == B "go") = false ∧ (B "module" == B "toolchain") = false ∧
+    (B "godebug" == B "go") = false ∧ (B "godebug" == B "toolchain") = false ∧ (B "godebug" == B "module") = false ∧
+    (B "require" == B "go") = false ∧ (B "require" == B "toolchain") = false ∧ (B "require" == B "module") = false ∧
+    (B "require" == B "godebug") = false ∧
+    (B "exclude" == B "go") = false ∧ (B "exclude" == B "toolchain") = false ∧ (B "exclude" == B "module") = false ∧
+    (B "exclude" == B "godebug") = false ∧ (B "exclude" == B "require") = false ∧
+    (B "replace" == B "go") = false ∧ (B "replace" == B "toolchain") = false ∧ (B "replace" == B "module") = false ∧
+    (B "replace" == B "godebug") = false ∧ (B "replace" == B "require") = false ∧ (B "replace" == B "exclude") = false ∧
+    (B "retract" == B "go") = false ∧ (B "retract" == B "toolchain") = false ∧ (B "retract" == B "module") = false ∧
+    (B "retract" == B "godebug") = false ∧ (B "retract" == B "require") = false ∧ (B "retract" == B "exclude") = false ∧
+    (B "retract" == B "replace") = false ∧
+    (B "tool" == B "go") = false ∧ (B "tool" == B "toolchain") = false ∧ (B "tool" == B "module") = false ∧
+    (B "tool" == B "godebug") = false ∧ (B "tool" == B "require") = false ∧ (B "tool" == B "exclude") = false ∧
+    (B "tool" == B "replace") = false ∧ (B "tool" == B "retract") = false := by decide +kernel
+
+/-- the result of one successful `File.add` step and its replay on the rewritten arguments -/
+structure StepOK (st st1 : AddState) (verb : Bytes) (args1 : List Bytes) (fix : Option Fixer) : Prop where
+  errs : st.errsRev = []
+  replay : ∀ (st' : AddState) (block' : Option Comments) (l' : Line), Sim st st' → l'.comments.suffix = [] →
+    ∃ st1', File.add st' block' l' verb args1 fix true = (st1', args1) ∧ Sim st1 st1'
+
+theorem values_eq_iff (f g : Modfile.File) : values f = values g ↔
+    f.module.map (·.mod.path) = g.module.map (·.mod.path) ∧ f.go.map (·.version) = g.go.map (·.version) ∧
+    f.toolchain.map (·.name) = g.toolchain.map (·.name) ∧
+    f.godebug.map (fun x => (x.key, x.value)) = g.godebug.map (fun x => (x.key, x.value)) ∧
+    f.require.map (fun r => (r.mod, r.indirect)) = g.require.map (fun r => (r.mod, r.indirect)) ∧
+    f.exclude.map (·.mod) = g.exclude.map (·.mod) ∧
+    f.replace.map (fun r => (r.old, r.new)) = g.replace.map (fun r => (r.old, r.new)) ∧
+    f.retract.map (·.interval) = g.retract.map (·.interval) ∧ f.tool.map (·.path) = g.tool.map (·.path) := by
+  simp [values]
+
+theorem err_ne_nil (st : AddState) (p : Position) (k : RuleErrKind) : (st.err p k).errsRev ≠ [] := by
+  simp [AddState.err]
+
+/-- `go` -/
+theorem add_go (st st1 : AddState) (block : Option Comments) (l : Line) (args args1 : List Bytes) (fix : Option Fixer)
+    (h : File.add st block l (B "go") args fix true = (st1, args1)) (he : st1.errsRev = []) :
+    StepOK st st1 (B "go") args1 fix ∧ (∃ a, args1 = [a] ∧ args = args1 ∧ goVersionRE a = true ∧
+      st1.file = { st.file with go := some { version := a, lineId := l.id } }) := by
+  unfold File.add at h
+  simp only [Bool.not_true, Bool.false_and, Bool.false_eq_true, if_false, beq_self_eq_true, if_true] at h
+  split at h
+  · simp only [Prod.mk.injEq] at h; obtain ⟨rfl, _⟩ := h; exact absurd he (err_ne_nil _ _ _)
+  · rename_i hgo
+    split at h
+    · rename_i a
+      split at h
+      · rename_i hre
+        simp only [Prod.mk.injEq] at h
+        obtain ⟨rfl, rfl⟩ := h
+        refine ⟨⟨he, ?_⟩, a, rfl, rfl, hre, rfl⟩
+        intro st' block' l' hsim _
+        have hgo' : st'.file.go.isSome = false := by
+          rw [← values_go_isSome hsim.vals]; simpa using hgo
+        refine ⟨{ st' with file := { st'.file with go := some { version := a, lineId := l'.id } } }, ?_, ?_⟩
+        · unfold File.add
+          simp only [Bool.not_true, Bool.false_and, Bool.false_eq_true, if_false, beq_self_eq_true, if_true, hgo', hre]
+        · have hv := (values_eq_iff _ _).1 hsim.vals
+          exact ⟨(values_eq_iff _ _).2 ⟨hv.1, rfl, hv.2.2⟩, he, hsim.errs'⟩
+      · simp only [Prod.mk.injEq] at h; obtain ⟨rfl, _⟩ := h; exact absurd he (err_ne_nil _ _ _)
+    · simp only [Prod.mk.injEq] at h; obtain ⟨rfl, _⟩ := h; exact absurd he (err_ne_nil _ _ _)
+
+/-- `toolchain` -/
+theorem add_toolchain (st st1 : AddState) (block : Option Comments) (l : Line) (args args1 : List Bytes)
+    (fix : Option Fixer) (h : File.add st block l (B "toolchain") args fix true = (st1, args1))
+    (he : st1.errsRev = []) :
+    StepOK st st1 (B "toolchain") args1 fix ∧
+      (∃ a, args1 = [a] ∧ args = args1 ∧ toolchainRE a = true ∧
+        st1.file = { st.file with toolchain := some { name := a, lineId := l.id } }) := by
+  unfold File.add at h
+  simp only [Bool.not_true, Bool.false_and, Bool.false_eq_true, if_false, beq_self_eq_true, if_true, verb_ne.1] at h
+  split at h
+  · simp only [Prod.mk.injEq] at h; obtain ⟨rfl, _⟩ := h; exact absurd he (err_ne_nil _ _ _)
+  · rename_i htc
+    split at h
+    · rename_i a
+      split at h
+      · simp only [Prod.mk.injEq] at h; obtain ⟨rfl, _⟩ := h; exact absurd he (err_ne_nil _ _ _)
+      · rename_i hre
+        have hre' : toolchainRE a = true := by simpa using hre
+        simp only [Prod.mk.injEq] at h
+        obtain ⟨rfl, rfl⟩ := h
+        refine ⟨⟨he, ?_⟩, a, rfl, rfl, hre', rfl⟩
+        intro st' block' l' hsim _
+        have htc' : st'.file.toolchain.isSome = false := by
+          rw [← values_toolchain_isSome hsim.vals]; simpa using htc
+        refine ⟨{ st' with file := { st'.file with toolchain := some { name := a, lineId := l'.id } } }, ?_, ?_⟩
+        · unfold File.add
+          simp only [Bool.not_true, Bool.false_and, Bool.false_eq_true, if_false, beq_self_eq_true, if_true,
+            verb_ne.1, htc', hre', Bool.not_true]
+        · have hv := (values_eq_iff _ _).1 hsim.vals
+          exact ⟨(values_eq_iff _ _).2 ⟨hv.1, hv.2.1, rfl, hv.2.2.2⟩, he, hsim.errs'⟩
+    · simp only [Prod.mk.injEq] at h; obtain ⟨rfl, _⟩ := h; exact absurd he (err_ne_nil _ _ _)
+
+/-- `godebug` -/
+theorem add_godebug (st st1 : AddState) (block : Option Comments) (l : Line) (args args1 : List Bytes)
+    (fix : Option Fixer) (h : File.add st block l (B "godebug") args fix true = (st1, args1))
+    (he : st1.errsRev = []) :
+    StepOK st st1 (B "godebug") args1 fix ∧
+      (∃ k v, args = args1 ∧ addGodebug args1 = some (k, v) ∧
+        st1.file = { st.file with godebug := st.file.godebug ++ [{ key := k, value := v, lineId := l.id }] }) := by
+  unfold File.add at h
+  simp only [Bool.not_true, Bool.false_and, Bool.false_eq_true, if_false, beq_self_eq_true, if_true, verb_ne.2.2.2.1,
+    verb_ne.2.2.2.2.1, verb_ne.2.2.2.2.2.1] at h
+  split at h
+  · simp only [Prod.mk.injEq] at h; obtain ⟨rfl, _⟩ := h; exact absurd he (err_ne_nil _ _ _)
+  · rename_i k v hg
+    simp only [Prod.mk.injEq] at h
+    obtain ⟨rfl, rfl⟩ := h
+    refine ⟨⟨he, ?_⟩, k, v, rfl, hg, rfl⟩
+    intro st' block' l' hsim _
+    refine ⟨{ st' with file := { st'.file with godebug := st'.file.godebug ++ [{ key := k, value := v, lineId := l'.id }] } }, ?_, ?_⟩
+    · unfold File.add
+      simp only [Bool.not_true, Bool.false_and, Bool.false_eq_true, if_false, beq_self_eq_true, if_true,
+        verb_ne.2.2.2.1, verb_ne.2.2.2.2.1, verb_ne.2.2.2.2.2.1, hg]
+    · have hv := (values_eq_iff _ _).1 hsim.vals
+      refine ⟨(values_eq_iff _ _).2 ⟨hv.1, hv.2.1, hv.2.2.1, ?_, hv.2.2.2.2⟩, he, hsim.errs'⟩
+      simp [hv.2.2.2.1]
+
+/-- `module` -/
+theorem add_module (st st1 : AddState) (block : Option Comments) (l : Line) (args args1 : List Bytes)
+    (fix : Option Fixer) (h : File.add st block l (B "module") args fix true = (st1, args1))
+    (he : st1.errsRev = []) :
+    StepOK st st1 (B "module") args1 fix ∧
+      (∃ a s d, args = [a] ∧ parseString a = some (s, autoQuote s) ∧ args1 = [autoQuote s] ∧
+        st1.file = { st.file with module := some { mod := { path := s }, deprecated := d, lineId := l.id } }) := by
+  unfold File.add at h
+  simp only [Bool.not_true, Bool.false_and, Bool.false_eq_true, if_false, beq_self_eq_true, if_true, verb_ne.2.1,
+    verb_ne.2.2.1] at h
+  split at h
+  · simp only [Prod.mk.injEq] at h; obtain ⟨rfl, _⟩ := h; exact absurd he (err_ne_nil _ _ _)
+  · rename_i hm
+    split at h
+    · rename_i a
+      split at h
+      · simp only [Prod.mk.injEq] at h; obtain ⟨rfl, _⟩ := h; exact absurd he (err_ne_nil _ _ _)
+      · rename_i s a' hps
+        simp only [Prod.mk.injEq] at h
+        obtain ⟨rfl, rfl⟩ := h
+        have ha' : a' = autoQuote s := by
+          unfold parseString at hps
+          split at hps
+          · split at hps
+            · cases hps
+            · simp only [Option.some.injEq, Prod.mk.injEq] at hps; rw [← hps.1, ← hps.2]
+          · split at hps
+            · cases hps
+            · simp only [Option.some.injEq, Prod.mk.injEq] at hps; rw [← hps.1, ← hps.2]
+        subst ha'
+        refine ⟨⟨he, ?_⟩, a, s, _, rfl, hps, rfl, rfl⟩
+        intro st' block' l' hsim _
+        have hm' : st'.file.module.isSome = false := by
+          rw [← values_module_isSome hsim.vals]; simpa using hm
+        let m' : Modfile.Module := { mod := { path := s }, deprecated := parseDeprecation block' l'.comments, lineId := l'.id }
+        refine ⟨{ st' with file := { st'.file with module := some m' } }, ?_, ?_⟩
+        · unfold File.add
+          simp only [Bool.not_true, Bool.false_and, Bool.false_eq_true, if_false, beq_self_eq_true, if_true,
+            verb_ne.2.1, verb_ne.2.2.1, hm', ModfileFmtQuote.parseString_autoQuote]
+          rfl
+        · have hv := (values_eq_iff _ _).1 hsim.vals
+          exact ⟨(values_eq_iff _ _).2 ⟨rfl, hv.2⟩, he, hsim.errs'⟩
+    · simp only [Prod.mk.injEq] at h; obtain ⟨rfl, _⟩ := h; exact absurd he (err_ne_nil _ _ _)
+
+theorem parseString_tok {a s a' : Bytes} (h : parseString a = some (s, a')) : a' = autoQuote s := by
+  unfold parseString at h
+  split at h
+  · split at h
+    · cases h
+    · simp only [Option.some.injEq, Prod.mk.injEq] at h; rw [← h.1, ← h.2]
+  · split at h
+    · cases h
+    · simp only [Option.some.injEq, Prod.mk.injEq] at h; rw [← h.1, ← h.2]
+
+/-- `tool` -/
+theorem add_tool (st st1 : AddState) (block : Option Comments) (l : Line) (args args1 : List Bytes)
+    (fix : Option Fixer) (h : File.add st block l (B "tool") args fix true = (st1, args1))
+    (he : st1.errsRev = []) :
+    StepOK st st1 (B "tool") args1 fix ∧
+      (∃ a s, args = [a] ∧ parseString a = some (s, autoQuote s) ∧ args1 = [autoQuote s] ∧
+        st1.file = { st.file with tool := st.file.tool ++ [{ path := s, lineId := l.id }] }) := by
+  obtain ⟨v1, v2, v3, v4, v5, v6, v7, v8, v9, v10, v11, v12, v13, v14, v15, v16, v17, v18, v19, v20, v21, v22, v23,
+    v24, v25, v26, v27, v28, v29, v30, v31, v32, v33, v34, v35, v36⟩ := verb_ne
+  unfold File.add at h
+  simp only [Bool.not_true, Bool.false_and, Bool.false_eq_true, if_false, beq_self_eq_true, if_true,
+    v29, v30, v31, v32, v33, v34, v35, v36, Bool.or_self] at h
+  split at h
+  · rename_i a
+    split at h
+    · simp only [Prod.mk.injEq] at h; obtain ⟨rfl, _⟩ := h; exact absurd he (err_ne_nil _ _ _)
+    · rename_i s a' hps
+      simp only [Prod.mk.injEq] at h
+      obtain ⟨rfl, rfl⟩ := h
+      have ha' := parseString_tok hps
+      subst ha'
+      refine ⟨⟨he, ?_⟩, a, s, rfl, hps, rfl, rfl⟩
+      intro st' block' l' hsim _
+      refine ⟨{ st' with file := { st'.file with tool := st'.file.tool ++ [{ path := s, lineId := l'.id }] } }, ?_, ?_⟩
+      · unfold File.add
+        simp only [Bool.not_true, Bool.false_and, Bool.false_eq_true, if_false, beq_self_eq_true, if_true,
+          v29, v30, v31, v32, v33, v34, v35, v36, Bool.or_self, ModfileFmtQuote.parseString_autoQuote]
+      · have hv := (values_eq_iff _ _).1 hsim.vals
+        refine ⟨(values_eq_iff _ _).2 ⟨hv.1, hv.2.1, hv.2.2.1, hv.2.2.2.1, hv.2.2.2.2.1, hv.2.2.2.2.2.1,
+          hv.2.2.2.2.2.2.1, hv.2.2.2.2.2.2.2.1, ?_⟩, he, hsim.errs'⟩
+        simp [hv.2.2.2.2.2.2.2.2]
+  · simp only [Prod.mk.injEq] at h; obtain ⟨rfl, _⟩ := h; exact absurd he (err_ne_nil _ _ _)
+
+/-! ### errors only accumulate -/
+
+theorem add_errs_mono (st : AddState) (block : Option Comments) (l : Line) (verb : Bytes) (args : List Bytes)
+    (fix : Option Fixer) (strict : Bool) :
+    st.errsRev <:+ (File.add st block l verb args fix strict).1.errsRev := by
+  unfold File.add
+  dsimp only
+  by_cases h0 : (!strict && !verbIn verb laxVerbs) = true
+  · rw [if_pos h0]; exact List.suffix_refl _
+  rw [if_neg h0]
+  by_cases h1 : (verb == B "go") = true
+  · rw [if_pos h1]
+    repeat' (first | exact List.suffix_refl _ | exact List.suffix_cons _ _ | split)
+  rw [if_neg h1]
+  by_cases h2 : (verb == B "toolchain") = true
+  · rw [if_pos h2]
+    repeat' (first | exact List.suffix_refl _ | exact List.suffix_cons _ _ | split)
+  rw [if_neg h2]
+  by_cases h3 : (verb == B "module") = true
+  · rw [if_pos h3]
+    repeat' (first | exact List.suffix_refl _ | exact List.suffix_cons _ _ | split)
+  rw [if_neg h3]
+  by_cases h4 : (verb == B "godebug") = true
+  · rw [if_pos h4]
+    repeat' (first | exact List.suffix_refl _ | exact List.suffix_cons _ _ | split)
+  rw [if_neg h4]
+  by_cases h5 : (verb == B "require" || verb == B "exclude") = true
+  · rw [if_pos h5]
+    repeat' (first | exact List.suffix_refl _ | exact List.suffix_cons _ _ | split)
+  rw [if_neg h5]
+  by_cases h6 : (verb == B "replace") = true
+  · rw [if_pos h6]
+    repeat' (first | exact List.suffix_refl _ | exact List.suffix_cons _ _ | split)
+  rw [if_neg h6]
+  by_cases h7 : (verb == B "retract") = true
+  · rw [if_pos h7]
+    repeat' (first | exact List.suffix_refl _ | exact List.suffix_cons _ _ | split)
+  rw [if_neg h7]
+  by_cases h8 : (verb == B "tool") = true
+  · rw [if_pos h8]
+    repeat' (first | exact List.suffix_refl _ | exact List.suffix_cons _ _ | split)
+  rw [if_neg h8]
+  exact List.suffix_cons _ _
 
 end ModVerif.Proofs.ModfileFmtDir
